@@ -807,10 +807,86 @@ func (ke *KindEngine) eval(v ssa.Value) *AV {
 			return nil
 		}
 		return a.Elem
-	case *ssa.MakeSlice, *ssa.Alloc:
+	case *ssa.MakeSlice:
+		return ke.makeSliceAV(x)
+	case *ssa.Alloc:
 		return nil
 	}
 	return nil
+}
+
+// makeSliceAV: a slice created by make and filled by indexed stores
+// (s[i] = f(xs[i]) inside a range over xs, or constant indices).
+func (ke *KindEngine) makeSliceAV(m *ssa.MakeSlice) *AV {
+	refs := m.Referrers()
+	if refs == nil {
+		return nil
+	}
+	f := m.Parent()
+	var elem *AV
+	var seq []*AV
+	positional := true
+	for _, ref := range *refs {
+		ia, ok := ref.(*ssa.IndexAddr)
+		if !ok {
+			continue
+		}
+		for _, r2 := range *ia.Referrers() {
+			st, ok := r2.(*ssa.Store)
+			if !ok || st.Addr != ia {
+				continue
+			}
+			// index = loop counter of a range over a positional slice?
+			done := false
+			for _, sr := range findSliceRanges(f) {
+				if ia.Index != sr.Idx {
+					continue
+				}
+				xs := ke.Eval(sr.X)
+				if xs == nil || len(xs.Seq) == 0 {
+					continue
+				}
+				out := make([]*AV, len(xs.Seq))
+				saved := ke.env
+				for k := range xs.Seq {
+					ke.env = map[ssa.Value]*AV{}
+					for kk, vv := range saved {
+						ke.env[kk] = vv
+					}
+					instrs(f, func(in ssa.Instruction) {
+						if val, ok := in.(ssa.Value); ok && sr.isElem(val) {
+							if _, isAddr := val.(*ssa.IndexAddr); !isAddr {
+								ke.env[val] = xs.Seq[k]
+							}
+						}
+					})
+					out[k] = ke.Eval(st.Val)
+					if out[k] == nil {
+						out[k] = &AV{}
+					}
+				}
+				ke.env = saved
+				if seq == nil {
+					seq = out
+				}
+				done = true
+			}
+			if !done {
+				positional = false
+				elem = joinAV(elem, ke.Eval(st.Val))
+			}
+		}
+	}
+	if positional && seq != nil {
+		return &AV{Seq: seq}
+	}
+	if elem == nil && seq == nil {
+		return nil
+	}
+	for _, e := range seq {
+		elem = joinAV(elem, e)
+	}
+	return &AV{Elem: elem}
 }
 
 func (ke *KindEngine) indexInto(a *AV, idx ssa.Value) *AV {
@@ -1119,6 +1195,11 @@ func (ke *KindEngine) evalCall(c *ssa.Call, res int) *AV {
 				return scalarAV(ks(kSCALE))
 			}
 			return nil
+		case "Ldexp":
+			if c, ok := constFloat(args[0]); ok && c == 1 {
+				return scalarAV(ks(kSCALE))
+			}
+			return arg(0)
 		case "Mod":
 			a, b := arg(0), arg(1)
 			var sa, sb KindSet
